@@ -78,7 +78,7 @@ def finish(run, mod):
     replay_path = None
     if violations:
         secname, idx, case, info = violations[0]
-        rdir = os.path.join(VERIF, "replays", prop)
+        rdir = os.path.join(os.environ.get("VERIF_OUT") or VERIF, "replays", prop)
         os.makedirs(rdir, exist_ok=True)
         body = {"property": prop, "section": secname, "case": case, **info,
                 "how": "cd /verif && ./check --replay replays/%s/<this file>" % prop}
